@@ -9,9 +9,18 @@ PROP = dict(
     assumptions=['positions are well-formed (produced by Move / FromSquares)'],
 )
 MANIFEST = dict(
-    text="Coq theorems: the slides table is a duplicate-free listing of exactly the drop compositions within each carry limit, and every "
-         "admissible slide shape from a mover-owned stack is in all_moves (allmoves_has_slide). The model of AllMoves is compared with the "
-         "implementation's list (as a set and in order) on every generated position, and an independent rules oracle enumerates the complete "
-         "legal move set and checks completeness, duplicates, on-board endpoints and accepted-implies-generated directly on the implementation.",
-    ref='5.3', technique='Coq proof (slides table, slide completeness) + model/implementation differential + exhaustive rules-oracle enumeration per position',
-    note="Trusted: Coq kernel, extraction, transcription of AllMoves/calculateSlides (validated by execution), generators. Placement completeness / NoDup / on-board theorems not yet proved (partial).")
+    text="Coq theorems over the code-shaped model of AllMoves/calculateSlides (Properties/C03.v, all closed under the global context): "
+         "completeness - every non-pass raw move value that the model of the repaired MovePreallocated accepts in a well-formed position is "
+         "Move.Equal to a generated move (C03_allmoves_complete); no two generated moves are Equal and every generated move starts and ends "
+         "on the board, both for every position value whatsoever (C03_allmoves_nodup, C03_allmoves_on_board, C03_allmoves_dest for the int8 "
+         "Dest()); the exact content of the list (C03_all_moves_spec: placements on empty squares by opening rule and capstone availability, "
+         "slides = drop compositions within min(height,size) and the distance to the edge; built on C03_slides_table_spec); and, with C01, "
+         "C03_legal_set_exact: the list filtered by MovePreallocated's verdict contains every rules-legal raw move exactly once up to Equal and "
+         "nothing else. Non-vacuity on a concrete 5x5 mid-game position (78 generated, 69 legal) and a refutation of completeness for the "
+         "pinned tree without the bounds check. The model of AllMoves is compared with the implementation's list (as a set and in order) on "
+         "every generated position, and an independent rules oracle enumerates the complete legal move set and checks completeness, duplicates, "
+         "on-board endpoints and accepted-implies-generated directly on the implementation.",
+    ref='5.3', technique='Coq proof (completeness, NoDup, on-board, exact legal set via C01) + model/implementation differential + exhaustive rules-oracle enumeration per position',
+    note="Trusted: Coq kernel, extraction, transcription of AllMoves/calculateSlides and MovePreallocated (validated by execution), generators. "
+         "All theorems of DESIGN 5.3 are proved; legal_set_exact inherits the hypotheses of C01 (size 3..8, board_ok, byte-range reserves, "
+         "tall_ok = height + size <= 64 per square). Pass is outside the claim (the model returns Err for it).")
